@@ -28,16 +28,40 @@ CHUNKS_PER_WORKER = 4
 
 MAXF = {"quick": 3, "thorough": 5}
 HLEN = {"quick": 3, "thorough": 4}
+# the added shapes (three-level chains, re-declared inherited field) are enumerated up to one field less than MAXF
+MAXF_EXTRA = {"quick": 2, "thorough": 4}
 # reading switch (see meta()["assumptions"]): a field inherited from an UNSLOTTED base must not get a slot of its own
 STRICT_INHERITED_SLOTS = True
 
-BASES = ("none", "slotted", "slotted_nw", "slotted_dict", "unslotted")
-BASE_DECO = {
-    "slotted": "@classes.slotted",  # the defaults: dict=False, weakref=True
-    "slotted_nw": "@classes.slotted(weakref=False)",
-    "slotted_dict": "@classes.slotted(dict=True, weakref=False)",
-    "unslotted": None,
+BASES = ("none", "slotted", "slotted_nw", "slotted_dict", "unslotted", "chain_sp", "chain_ps")
+SIMPLE_BASES = ("slotted", "slotted_nw", "slotted_dict", "unslotted")  # one level; these may also have base_x re-declared
+# base kind -> the classes above C, root first: (class name, parent, slotted decorator | None, field line, init parameter)
+BASE_CHAIN = {
+    "slotted": [("Base", None, "@classes.slotted", "base_x: int = 0", "base_x")],  # the defaults: dict=False, weakref=True
+    "slotted_nw": [("Base", None, "@classes.slotted(weakref=False)", "base_x: int = 0", "base_x")],
+    "slotted_dict": [("Base", None, "@classes.slotted(dict=True, weakref=False)", "base_x: int = 0", "base_x")],
+    "unslotted": [("Base", None, None, "base_x: int = 0", "base_x")],
+    # three levels, each adding one field: slotted -> plain -> C   and   plain -> slotted -> C
+    "chain_sp": [("Root", None, "@classes.slotted(weakref=False)", "root_x: int = 7", "root_x"), ("Base", "Root", None, "base_x: int = 0", "base_x")],
+    "chain_ps": [("Root", None, None, "root_x: int = 7", "root_x"), ("Base", "Root", "@classes.slotted", "base_x: int = 0", "base_x")],
 }
+BASE_DEFAULTS = {"root_x": 7, "base_x": 0}
+REDECL_DEFAULT = 5  # `base_x: int = 5` re-declared in the child
+HOOKS = ("none", "both", "set", "get")  # user pickling hooks: none / __getstate__+__setstate__ / only __setstate__ / only __getstate__
+
+
+def has_slotted_ancestor(sp):
+    return any(c[2] for c in BASE_CHAIN.get(sp["base"], ()))
+
+
+def norm(sp):
+    """accept older replay cases (gs was a bool, no redecl key)"""
+    sp = dict(sp)
+    if isinstance(sp.get("gs"), bool):
+        sp["gs"] = "both" if sp["gs"] else "none"
+    sp.setdefault("nested", False)
+    sp.setdefault("redecl", False)
+    return sp
 FLAGS = [  # (frozen, eq, order, unsafe_hash); order requires eq
     (fr, eq, od, uh)
     for eq, od in ((True, False), (True, True), (False, False))
@@ -63,9 +87,9 @@ def field_patterns(n, with_base):
     return out
 
 
-def mkspec(fields, flags, base, gs, d, w, nested=False):
+def mkspec(fields, flags, base, gs, d, w, nested=False, redecl=False):
     fr, eq, od, uh = flags
-    return {"fields": fields, "frozen": fr, "eq": eq, "order": od, "unsafe_hash": uh, "base": base, "gs": gs, "dict": d, "weakref": w, "nested": nested}
+    return {"fields": fields, "frozen": fr, "eq": eq, "order": od, "unsafe_hash": uh, "base": base, "gs": gs, "dict": d, "weakref": w, "nested": nested, "redecl": redecl}
 
 
 def legal(sp):
@@ -73,6 +97,11 @@ def legal(sp):
     if sp["order"] and not sp["eq"]:
         return False
     if sp["base"] != "none" and "n" in f:
+        return False
+    if sp.get("redecl") and sp["base"] not in SIMPLE_BASES:
+        return False
+    if sp["gs"] == "get" and sp["frozen"]:
+        # only __getstate__ on a frozen class: the ORIGINAL cannot be restored by the default machinery (setattr) either
         return False
     return "dn" not in f and "fn" not in f
 
@@ -83,7 +112,7 @@ def skey(sp):
 
 def sshort(sp):
     fl = "".join(c for c, on in zip("FEOU", (sp["frozen"], sp["eq"], sp["order"], sp["unsafe_hash"])) if on) or "-"
-    return f"fields={sp['fields'] or '-'} flags={fl} base={sp['base']} gs={int(sp['gs'])} dict={sp['dict']} weakref={sp['weakref']}" + (" nested" if sp.get("nested") else "")
+    return f"fields={sp['fields'] or '-'} flags={fl} base={sp['base']} hooks={sp['gs']} dict={sp['dict']} weakref={sp['weakref']}" + (" nested" if sp.get("nested") else "") + (" redeclares-base_x" if sp.get("redecl") else "")
 
 
 def feature(sp):
@@ -98,8 +127,10 @@ def feature(sp):
         parts.append("order")
     if sp["unsafe_hash"]:
         parts.append("unsafe_hash")
-    if sp["gs"]:
-        parts.append("user-getstate")
+    if sp["gs"] != "none":
+        parts.append({"both": "user-getstate", "set": "user-setstate-only", "get": "user-getstate-only"}[sp["gs"]])
+    if sp.get("redecl"):
+        parts.append("redeclared-inherited-field")
     if sp["dict"]:
         parts.append("dict=True")
     if sp["weakref"]:
@@ -129,9 +160,10 @@ def source(sp, slot_child, cname="C", bare=False):
     L = ["import dataclasses", "from typelib.py import classes", "SETSTATE_CALLS = []", "GETSTATE_CALLS = []"]
     if sp["base"] != "none":
         L.append('STAGE = "base"')
-        if BASE_DECO[sp["base"]]:
-            L.append(BASE_DECO[sp["base"]])
-        L += [f"@dataclasses.dataclass(frozen={fr})", "class Base:", "    base_x: int = 0"]
+        for bname, parent, deco, fline, _ in BASE_CHAIN[sp["base"]]:
+            if deco:
+                L.append(deco)
+            L += [f"@dataclasses.dataclass(frozen={fr})", f"class {bname}{'(' + parent + ')' if parent else ''}:", "    " + fline]
     L.append('STAGE = "child"')
     C = []
     if slot_child:
@@ -139,6 +171,8 @@ def source(sp, slot_child, cname="C", bare=False):
     C.append(f"@dataclasses.dataclass(frozen={fr}, eq={sp['eq']}, order={sp['order']}, unsafe_hash={sp['unsafe_hash']})")
     C.append(f"class {cname}{'(Base)' if sp['base'] != 'none' else ''}:")
     body = []
+    if sp.get("redecl"):
+        body.append(f"    base_x: int = {REDECL_DEFAULT}")
     for i, k in enumerate(sp["fields"]):
         if k == "n":
             body.append(f"    {fname(i)}: int")
@@ -146,7 +180,7 @@ def source(sp, slot_child, cname="C", bare=False):
             body.append(f"    {fname(i)}: int = {default_of(i)}")
         else:
             body.append(f"    {fname(i)}: list = dataclasses.field(default_factory=list)")
-    if sp["gs"]:
+    if sp["gs"] == "both":
         body += [
             "    def __getstate__(self):",
             "        GETSTATE_CALLS.append(1)",
@@ -156,6 +190,22 @@ def source(sp, slot_child, cname="C", bare=False):
             "        assert state['__user__'] is True",
             "        for k, v in state['fields'].items():",
             "            object.__setattr__(self, k, v)",
+        ]
+    elif sp["gs"] == "set":
+        # only __setstate__: the state comes from object.__getstate__ (a dict, or (dict | None, slot dict))
+        body += [
+            "    def __setstate__(self, state):",
+            "        SETSTATE_CALLS.append(1)",
+            "        for part in (state if isinstance(state, tuple) else (state,)):",
+            "            for k, v in (part or {}).items():",
+            "                object.__setattr__(self, k, v)",
+        ]
+    elif sp["gs"] == "get":
+        # only __getstate__: (None, {name: value}) is restored by the default machinery with setattr in both worlds
+        body += [
+            "    def __getstate__(self):",
+            "        GETSTATE_CALLS.append(1)",
+            "        return (None, {f.name: getattr(self, f.name) for f in dataclasses.fields(self)})",
         ]
     C += body or ["    pass"]
     if nested:
@@ -169,12 +219,16 @@ def source(sp, slot_child, cname="C", bare=False):
 
 
 def info_of(sp, cname="C"):
-    own = [fname(i) for i in range(len(sp["fields"]))]
-    params = ([("base_x", "d")] if sp["base"] != "none" else []) + list(zip(own, sp["fields"]))
+    own = [fname(i) for i in range(len(sp["fields"]))]  # declared in the body AND not a field of any base
+    inh = [c[4] for c in BASE_CHAIN.get(sp["base"], ())]
+    params = [(n, "d") for n in inh] + list(zip(own, sp["fields"]))
     dflt = {fname(i): default_of(i) for i, k in enumerate(sp["fields"]) if k == "d"}
-    if sp["base"] != "none":
-        dflt["base_x"] = 0
-    return SM.Info(cname, params, own, sp["frozen"], sp["eq"], sp["order"], sp["gs"], sp["dict"], sp["weakref"], dflt)
+    for n in inh:
+        dflt[n] = BASE_DEFAULTS[n]
+    if sp.get("redecl"):
+        dflt["base_x"] = REDECL_DEFAULT
+    hooks = {"none": (), "both": ("__getstate__", "__setstate__"), "set": ("__setstate__",), "get": ("__getstate__",)}[sp["gs"]]
+    return SM.Info(cname, params, own, sp["frozen"], sp["eq"], sp["order"], hooks, sp["dict"], sp["weakref"], dflt)
 
 
 def _load(name, src):
@@ -218,7 +272,7 @@ def judge_spec(sp, res=None, o_mod=None):
         try:
             V = SM.judge(o_mod.C, s_mod.C, info_of(sp), o_mod=o_mod, s_mod=s_mod, full=True, count=count)
         except SM.OriginalFails:
-            if sp["base"].startswith("slotted"):
+            if has_slotted_ancestor(sp):
                 return None, True  # the ORIGINAL child of a slotted base misbehaves: base fixture broken (covered by base=none)
             raise
         if not STRICT_INHERITED_SLOTS:
@@ -270,10 +324,21 @@ def _reductions(sp):
         yield {**sp, "eq": True}
     if sp["unsafe_hash"]:
         yield {**sp, "unsafe_hash": False}
+    if sp.get("redecl"):
+        yield {**sp, "redecl": False}
     if sp["base"] != "none":
-        yield {**sp, "base": "none"}
-    if sp["gs"]:
-        yield {**sp, "gs": False}
+        yield {**sp, "base": "none", "redecl": False}
+    if sp["base"] == "chain_sp":
+        yield {**sp, "base": "unslotted"}
+        yield {**sp, "base": "slotted_nw"}
+    if sp["base"] == "chain_ps":
+        yield {**sp, "base": "slotted"}
+        yield {**sp, "base": "unslotted"}
+    if sp["gs"] == "both":
+        yield {**sp, "gs": "set"}
+        yield {**sp, "gs": "get"}
+    if sp["gs"] != "none":
+        yield {**sp, "gs": "none"}
     if sp["dict"]:
         yield {**sp, "dict": False}
     if sp["weakref"]:
@@ -322,6 +387,7 @@ def report(sp, V, res, extra=""):
 
 
 def run_spec(sp, res, o_mod=None):
+    sp = norm(sp)
     res.programs += 1
     V, decorated = judge_spec(sp, res, o_mod)
     if V is None:
@@ -333,7 +399,8 @@ def run_spec(sp, res, o_mod=None):
     res.hit("base:" + sp["base"])
     res.hit(f"dict,weakref:{int(sp['dict'])}{int(sp['weakref'])}")
     res.hit(f"fields:{len(sp['fields'])}")
-    res.hit(f"user-getstate:{int(sp['gs'])}")
+    res.hit(f"user-hooks:{sp['gs']}")
+    res.hit(f"redeclared-inherited-field:{int(bool(sp.get('redecl')))}")
     res.hit(f"nested:{int(bool(sp.get('nested')))}")
     key = h64(skey(sp), sorted((c, m) for c, m, _ in V))
     res.outcomes.add(key)
@@ -349,12 +416,12 @@ SHARED = "tlg_c19h_shared"
 _D = (False, True, False, False)
 ALPHABET = [
     # id, spec, class name, module name, bare decorator (@classes.slotted without arguments: weakref defaults to True)
-    ("A", mkspec("n", _D, "none", False, False, False), "C", SHARED, False),
-    ("B", mkspec("d", _D, "none", False, False, True), "C", SHARED, True),
-    ("U", mkspec("d", _D, "unslotted", False, False, False), "CU", "tlg_c19h_u", False),
-    ("F", mkspec("nd", (True, True, False, False), "none", False, False, True), "CF", "tlg_c19h_f", False),
-    ("P", mkspec("nf", _D, "none", False, True, False), "CP", "tlg_c19h_p", False),
-    ("W", mkspec("d", _D, "unslotted", False, False, True), "CW", "tlg_c19h_w", False),
+    ("A", mkspec("n", _D, "none", "none", False, False), "C", SHARED, False),
+    ("B", mkspec("d", _D, "none", "none", False, True), "C", SHARED, True),
+    ("U", mkspec("d", _D, "unslotted", "none", False, False), "CU", "tlg_c19h_u", False),
+    ("F", mkspec("nd", (True, True, False, False), "none", "none", False, True), "CF", "tlg_c19h_f", False),
+    ("P", mkspec("nf", _D, "none", "none", True, False), "CP", "tlg_c19h_p", False),
+    ("W", mkspec("d", _D, "unslotted", "none", False, True), "CW", "tlg_c19h_w", False),
 ]
 ENV = [
     ("N1", "class C:\n    x = 1\n", "C", SHARED),  # same repr as A and B
@@ -528,40 +595,54 @@ def units(tier):
     us = []
     for n in range(MAXF[tier] + 1):
         for base in BASES:
+            if base.startswith("chain") and n > MAXF_EXTRA[tier]:
+                continue
             for fp in field_patterns(n, base != "none"):
-                us.append(("P", fp, base, False))
+                us.append(("P", fp, base, False, False))
+                if base in SIMPLE_BASES and n <= MAXF_EXTRA[tier]:
+                    us.append(("P", fp, base, False, True))  # the child re-declares the inherited field base_x
                 if n <= NESTED_MAXF and base in NESTED_BASES:
-                    us.append(("P", fp, base, True))
-    us += [("H", m, "", False) for m in MOVES]
+                    us.append(("P", fp, base, True, False))
+    us += [("H", m, "", False, False) for m in MOVES]
     return us
 
 
+def unit_specs(unit):
+    """[(o-world spec, [specs sharing that o-world])] of one program unit, deterministic order"""
+    _, a, base, nested, redecl = unit
+    out = []
+    for flags in FLAGS:
+        for gs in HOOKS:
+            sp0 = mkspec(a, flags, base, gs, False, False, nested, redecl)
+            if legal(sp0):
+                out.append((sp0, [mkspec(a, flags, base, gs, d, w, nested, redecl) for d, w in DW]))
+    return out
+
+
 def run_unit(unit, tier, res):
-    kind, a, base, nested = unit
+    kind, a, base, nested, redecl = unit
     if kind == "H":
         for h in histories(a, HLEN[tier]):
             run_history(h, res)
         if len(res.samples) < 3:
             res.samples.append({"history": [a] + MOVES[:2], "moves": MOVES})
         return
-    for flags in FLAGS:
-        for gs in (False, True):
-            sp0 = mkspec(a, flags, base, gs, False, False, nested)
-            cold.clear_all()
-            out, o_mod = _load(O_NAME, source(sp0, False))
-            if not out.ok:
-                if getattr(o_mod, "STAGE", "?") == "base":
-                    res.skipped += len(DW)
-                    res.hit("skip:base-fixture", len(DW))
-                    continue
-                raise RuntimeError(f"C19 harness: plain dataclass does not build for {sshort(sp0)}: {out!r}")
-            try:
-                for d, w in DW:
-                    run_spec(mkspec(a, flags, base, gs, d, w, nested), res, o_mod)
-            finally:
-                dropmod(O_NAME)
+    for sp0, group in unit_specs(unit):
+        cold.clear_all()
+        out, o_mod = _load(O_NAME, source(sp0, False))
+        if not out.ok:
+            if getattr(o_mod, "STAGE", "?") == "base":
+                res.skipped += len(group)
+                res.hit("skip:base-fixture", len(group))
+                continue
+            raise RuntimeError(f"C19 harness: plain dataclass does not build for {sshort(sp0)}: {out!r}")
+        try:
+            for sp in group:
+                run_spec(sp, res, o_mod)
+        finally:
+            dropmod(O_NAME)
     if len(res.samples) < 3:
-        sp = mkspec(a, FLAGS[-1], base, True, True, True, nested)
+        sp = mkspec(a, FLAGS[-1], base, "both", True, True, nested, redecl)
         res.samples.append({"spec": sp, "source_s": source(sp, True)})
 
 
@@ -574,24 +655,33 @@ def replay(case, tier, res):
 
 def meta(tier):
     nf = MAXF[tier]
-    n_units = sum(1 for u in units(tier) if u[0] == "P")
-    n_nested = sum(1 for u in units(tier) if u[0] == "P" and u[3])
-    n_specs = n_units * len(FLAGS) * 2 * len(DW)
+    pu = [u for u in units(tier) if u[0] == "P"]
+    n_specs = sum(len(g) for u in pu for _, g in unit_specs(u))
+    n_nested = sum(len(g) for u in pu if u[3] for _, g in unit_specs(u))
+    n_redecl = sum(len(g) for u in pu if u[4] for _, g in unit_specs(u))
+    n_chain = sum(len(g) for u in pu if u[2].startswith("chain") for _, g in unit_specs(u))
     n_hist = sum(len(MOVES) ** k for k in range(1, HLEN[tier] + 1))
     return {
         "rule": "programs: every legal spec = field pattern (0..%d fields, each no-default/default/default_factory=list, no non-default "
-        "after a default; with a base - whose field base_x has a default - only defaulted fields) x 12 legal (frozen, eq, order, unsafe_hash) "
-        "x base in %s x user __getstate__/__setstate__ {no, yes} x (dict, weakref) in 4 combinations, plus the same with the class nested in another class (qualname != name) for <= %d fields and "
-        "base in %s = %d specs in all (%d of them nested), NO reduction of the per-field choices at 4-5 fields; each spec is loaded as module o (plain) and module s (slotted) and judged by refmodel.slotmodel "
+        "after a default; with a base - whose fields have defaults - only defaulted fields) x 12 legal (frozen, eq, order, unsafe_hash) "
+        "x base in %s (chain_sp = slotted Root -> plain Base -> C, chain_ps = plain Root -> slotted Base -> C, one field per level) "
+        "x user pickling hooks %s (only-__getstate__ not on frozen classes) x (dict, weakref) in 4 combinations; every one-level base also with the "
+        "child RE-DECLARING the inherited field (base_x: int = %d); the class nested in another class (qualname != name) for <= %d fields and "
+        "base in %s = %d specs in all (%d re-declaring, %d three-level, %d nested); the re-declaring and three-level shapes go up to %d own fields, "
+        "everything else to %d, with NO reduction of the per-field choices at 4-5 fields; "
+        "each spec is loaded as module o (plain) and module s (slotted) and judged by refmodel.slotmodel "
         "(7 instances per world: pos A, A', B, C; kw A; omit A, A'; 2 copy targets x {copy, deepcopy, pickle 2..5}). "
         "histories: every sequence of length 1..%d over %d moves (%s) = %d histories, each replayed from cold, last step judged by the "
         "reduced model (construct, repr, eq, __slots__) and against the same decoration alone. states = distinct contents of classes._stack; "
-        "non-trivial = the decoration returned a class" % (nf, list(BASES), NESTED_MAXF, list(NESTED_BASES), n_specs, n_nested * len(FLAGS) * 2 * len(DW), HLEN[tier], len(MOVES), ",".join(MOVES), n_hist),
-        "bounds": {"max_fields": nf, "specs": n_specs, "history_len": HLEN[tier], "histories": n_hist, "moves": MOVES, "bases": list(BASES), "pickle_protocols": list(SM.PICKLE_PROTOCOLS)},
+        "non-trivial = the decoration returned a class"
+        % (nf, list(BASES), list(HOOKS), REDECL_DEFAULT, NESTED_MAXF, list(NESTED_BASES), n_specs, n_redecl, n_chain, n_nested, MAXF_EXTRA[tier], nf, HLEN[tier], len(MOVES), ",".join(MOVES), n_hist),
+        "bounds": {"max_fields": nf, "max_fields_chain_and_redeclare": MAXF_EXTRA[tier], "specs": n_specs, "history_len": HLEN[tier], "histories": n_hist, "moves": MOVES, "bases": list(BASES), "hooks": list(HOOKS), "pickle_protocols": list(SM.PICKLE_PROTOCOLS)},
         "assumptions": [
-            "the original world keeps the same (possibly slotted) base: only the child's decorator differs between module o and module s",
+            "the original world keeps the same (possibly slotted) bases: only the child's decorator differs between module o and module s",
             "base frozen-ness follows the child (dataclasses forbid mixing); base kinds slotted_nw / slotted_dict (weakref=False / dict=True) are added to the three of the design",
-            "a field inherited from an unslotted base counts as inherited: a slot for it is reported as C19/slots/.../extra:inherited-field (STRICT_INHERITED_SLOTS)",
+            "a field inherited from an unslotted base counts as inherited, and so does an inherited field that the child re-declares: a slot for it is reported as C19/slots/.../extra:inherited-field (STRICT_INHERITED_SLOTS)",
+            "user hooks are written so that they work for the ORIGINAL in every spec: only-__setstate__ accepts a dict or a (dict|None, slot dict) pair; only-__getstate__ returns (None, {field: value}) which the default "
+            "machinery restores with setattr - impossible on a frozen original, hence excluded; a declared hook must stay the user's function and must be called whenever it is called for the original",
             "frozen: FrozenInstanceError is demanded for declared fields; for an undeclared name only rejection is demanded (the exception class is tallied in coverage)",
             "the order of '__dict__'/'__weakref__' inside __slots__ is free; field order is declaration order",
             "hash values are compared between the worlds only when the original's hash is value based (two distinct equal instances hash alike)",
